@@ -32,7 +32,10 @@ type c09pScenario struct {
 }
 
 var c09pClient = []string{"alias1@example.org", "alias2@example.org", "plain@example.org", "list@example.org"}
-var c09pEffective = []string{"u1@example.org", "u2@example.org", "u3@example.org", "u4@example.org", "u5@example.org", "u6@example.org"}
+// images of rewrites; the last four are the client addresses themselves: a recipient may be rewritten to an address
+// that the client also names (and that is rewritten further when named directly) - one level only, not transitively
+var c09pEffective = []string{"u1@example.org", "u2@example.org", "u3@example.org", "u4@example.org", "u5@example.org", "u6@example.org",
+	"alias1@example.org", "alias2@example.org", "plain@example.org", "list@example.org"}
 
 type c09pCollector struct {
 	mu   sync.Mutex
@@ -119,6 +122,21 @@ func c09pRun(sc c09pScenario) (vs []ev.V) {
 		// the second target refuses the last effective address of the recipient
 		vRec.fail["t2/rcpt/"+eff[len(eff)-1]] = &exterrors.SMTPError{Code: 550, EnhancedCode: exterrors.EnhancedCode{5, 1, 1}, Message: "second target: no such user"}
 	}
+	// a refused address may also be the image of another client recipient (rewrite chains)
+	for _, k := range sc.Rcpts {
+		eff := []string{c09pClient[k]}
+		if exp, ok := sc.Rewrites[k]; ok {
+			eff = nil
+			for _, e := range exp {
+				eff = append(eff, c09pEffective[e])
+			}
+		}
+		for _, a := range eff {
+			if _, bad := vRec.fail["t2/rcpt/"+a]; bad {
+				refusedClient[c09pClient[k]] = true
+			}
+		}
+	}
 	ctx := context.Background()
 	d, err := p.Start(ctx, &module.MsgMetadata{ID: "c09p", DontTraceSender: true}, "sender@example.com")
 	if err != nil {
@@ -170,10 +188,17 @@ func TestVerifC09Pipeline(t *testing.T) {
 	ev.Run(t, r, ev.Spec[c09pScenario]{Name: "pipeline", Journal: true, N: r.N, Gen: func(t *rapid.T) c09pScenario {
 		sc := c09pScenario{Rewrites: map[int][]int{}, Level: rapid.SampledFrom([]string{"global", "source", "destination", "both", "reroute", "reroute-in-destination"}).Draw(t, "level")}
 		next := 0
+		usedClient := map[int]bool{}
 		for k := 0; k < len(c09pClient); k++ {
-			if rapid.Bool().Draw(t, "rewritten") && next < len(c09pEffective) {
+			if rapid.Bool().Draw(t, "rewritten") && next < 6 {
 				n := rapid.IntRange(1, 2).Draw(t, "fanout")
-				for i := 0; i < n && next < len(c09pEffective); i++ {
+				for i := 0; i < n && next < 6; i++ {
+					// sometimes the image is another client address (images stay disjoint)
+					if j := rapid.IntRange(0, 11).Draw(t, "chain_to"); j < len(c09pClient) && j != k && !usedClient[j] && sc.Level != "both" {
+						usedClient[j] = true
+						sc.Rewrites[k] = append(sc.Rewrites[k], 6+j)
+						continue
+					}
 					sc.Rewrites[k] = append(sc.Rewrites[k], next)
 					next++
 				}
@@ -183,8 +208,13 @@ func TestVerifC09Pipeline(t *testing.T) {
 		if rapid.IntRange(0, 3).Draw(t, "second_target") == 0 {
 			sc.Refuse = rapid.SliceOfNDistinct(rapid.SampledFrom(sc.Rcpts), 1, 2, rapid.ID[int]).Draw(t, "refuse")
 		}
-		if next > 0 {
-			sc.Fail = rapid.SliceOfNDistinct(rapid.IntRange(0, next-1), 0, 2, rapid.ID[int]).Draw(t, "fail")
+		var images []int
+		for _, v := range sc.Rewrites {
+			images = append(images, v...)
+		}
+		sort.Ints(images)
+		if len(images) > 0 {
+			sc.Fail = rapid.SliceOfNDistinct(rapid.SampledFrom(images), 0, 2, rapid.ID[int]).Draw(t, "fail")
 		}
 		return sc
 	}, Run: c09pRun, Info: func(sc c09pScenario) ev.Info {
